@@ -244,6 +244,21 @@ theorem restore_fails_after_evict_counterexample :
     ∃ s : State, s.rmRoot = true ∧ restore s.globalMap s.rmRoot (save s) false = none := by
   refine ⟨evictWitness, ?_, ?_⟩ <;> decide
 
+/-- mount `/a`, mount `/a/../b`, umount `/a` on an instance with `remove_pseudo_root` -/
+def recreateWitness : State :=
+  let s0 := State.new Opts.default true
+  let s1 := (s0.mount (bkPlain 1) [47, 97] none).1
+  let s2 := (s1.mount (bkPlain 2) [47, 97, 47, 46, 46, 47, 98] none).1
+  (s2.umount [47, 97]).1
+
+/-- KNOWN FINDING `C19:rm-evicted:reattach-recreates-dir`: `restore_mount` walks the recorded
+    mount path with `PseudoFs::mount`; a path through an evicted directory creates it again, so
+    the restored pseudo tree differs from the original (`a` is back, `next_inode` moved on) -/
+theorem reattach_recreates_evicted_dir_counterexample :
+    ∃ s : State, s.rmRoot = true ∧ (saveRestore s .same).2.1 = .unit ∧
+      (saveRestore s .same).1.pseudo.nextInode ≠ s.pseudo.nextInode := by
+  refine ⟨recreateWitness, ?_, ?_, ?_⟩ <;> decide
+
 /-! ### constants pinned against the source -/
 
 /-- the `FsOptions` bits `Vfs::init` manipulates have the values the generated table gives them -/
